@@ -1,4 +1,5 @@
 import Restic.Model.Tags
+import Restic.Gen.Source
 /-!
 # C25 — Tag edits leave snapshots with exactly the requested tags
 
@@ -168,6 +169,12 @@ theorem runTag_spec (old : List Tag) (setL addL remL : List (List Tag)) (new : L
             rw [hc] at this; simp at this
           rw [set_exact old _ _ _ he hne] at hn
           simp [← hn]
+
+/-- T1 (regenerated from cmd/restic/cmd_tag.go on every run): in `changeTags` the new snapshot is
+    saved before the old one is removed, and both calls are still there. -/
+theorem save_before_remove :
+    (Restic.Gen.changeTags_calls.idxOf "data.SaveSnapshot") < (Restic.Gen.changeTags_calls.idxOf "repo.RemoveUnpacked")
+    ∧ "repo.RemoveUnpacked" ∈ Restic.Gen.changeTags_calls := by decide
 
 /-! ### Non-vacuity: concrete non-trivial instances -/
 
